@@ -15,3 +15,7 @@ func makeRootScheduled(t *Mast, st *vStore) (r *Root, err error, writesInFlightA
 // The engine runs one goroutine at a time, so the recording store needs no lock there.
 func storeLock(s *vStore)   {}
 func storeUnlock(s *vStore) {}
+
+// (the same for the recording cache: flush's store workers call NodeCache.Add concurrently)
+func cacheLock(c *vCache)   {}
+func cacheUnlock(c *vCache) {}
